@@ -70,6 +70,10 @@ mut("c18_cancel_closes_data_queue", "C18", "demux.go", "\t\tclose(conn.done)\n",
 mut("c18_run_ignores_cancel", "C18", "demux.go", "\t\tcase <-conn.done:\n\t\t\t// cancelled while waiting for its reader\n", "")
 mut("c19_unregister_closes_delivery_queue", "C19", "http.go", "\t\tclose(conn.closed)\n", "\t\tclose(conn.closed)\n\t\tclose(conn.readCh)\n")
 mut("c19_chan_write_ignores_done", "C18", "channel.go", "\t\tcase <-done:\n\t\t\treturn fmt.Errorf(\"write channel closed\")\n", "")
+mut("c11_server_handoff_ignores_gone", "C11", "server.go", "\t\t\tcase <-handler.gone:\n\t\t\t\t// The handler has returned without reading this message.\n\t\t\t\t// Waiting for it here would deadlock with unregisterStream,\n\t\t\t\t// which needs h.mu.\n", "")
+mut("c11_stream_unregisters_before_it_cancels", "C11", "server.go", "\tdefer handler.cancel()\n\n\tvar appErr error", "\tvar appErr error")
+mut("c11_client_owner_unregisters_without_signal", "C11", "internal/client/multiplexer.go", "\t\tclose(gone)\n\t\trm.unregisterHandler(streamId)", "\t\trm.unregisterHandler(streamId)")
+mut("c11_client_stream_teardown_without_signal", "C11", "internal/client/multiplexer.go", "\t\tgoneOnce.Do(func() { close(gone) })\n", "\t\t_ = &goneOnce\n")
 mut("c10_serve_no_drain", "C10", "server.go", "\th.cancelAndWaitForStreams()\n", "")
 
 only = sys.argv[1] if len(sys.argv) > 1 else ""
